@@ -36,6 +36,10 @@ POOL = ["y", "Y", "x", "X1", "x1", "y^", "y*", "y_", "_y", "__y", "y__", "<p>y",
         # punctuation / underscores in front of a keyword: the sanitised form, not the name, decides legality
         "_class", "__pass", "^lambda", "<if", "_if", "*class", "<func>_class", "<func>^lambda", "<func>_if",
         "None", "_None", "True", "^True", "<func>None", "<func>^True",
+        # persistent names that agree in their first 50+ characters (truncation must leave room for a suffix and
+        # for the reference-count prefix)
+        "<p>" + "e" * 60, "<p>" + "e" * 61, "<p>" + "e" * 60 + "X", "<state>" + "f" * 64, "<state>" + "f" * 65,
+        "<state>" + "F" * 64,
         # names of things the generated module defines itself
         "initialize", "Initialize", "INITIALIZE", "run", "Run", "shutdown", "print_profile", "<func>initialize", "<func>run",
         "set_up", "run_single_step", "next_phase", "StateComputed", "t", "dt", "numpy", "_numpy", "_functions"]
